@@ -33,8 +33,8 @@ PROPS = {
         "case_sets": ["parse"],
         "ops": ["PARSE", "PARSEV"],
         "oracle_clauses": [r"c07-.*", r"c08-unaccounted", r"c15-statement-count", r"unreadable-.*"],
-        "lean_targets": ["PqlModel.Props.C07", "PqlModel.Props.C07Full", "PqlModel.Props.C07Layout", "PqlModel.Props.C07Keywords", "PqlModel.Props.C07Defaults", "PqlModel.Props.C07OperatorIRTreesA", "PqlModel.Props.C07OperatorIRTreesB", "PqlModel.Props.C07OperatorIR", "PqlModel.Props.C07OperatorIRSort", "PqlModel.Props.C07OperatorIRExtend", "PqlModel.Props.C07OperatorIRProject", "PqlModel.Props.C07OperatorIRLet", "PqlModel.Props.C07OperatorIRTabular", "PqlModel.Props.C07OperatorIRSummarize", "PqlModel.Props.C07OperatorIRRender", "PqlModel.Props.C07OperatorIRJoin", "PqlModel.Props.C07OperatorIRParse"],
-        "facts": ["precedence", "keywords", "joinTypes", "operatorKeywords", "sortTermInit", "sortTermFirst", "sortTermNullsKeyword", "sortTermNulls", "rowCountCheck", "joinInit", "joinKindKeyword", "joinKindSets", "joinUnknownFlavorContinues", "parseIR"],
+        "lean_targets": ["PqlModel.Props.C07", "PqlModel.Props.C07Full", "PqlModel.Props.C07Layout", "PqlModel.Props.C07Keywords", "PqlModel.Props.C07Defaults", "PqlModel.Props.C07OperatorIRTreesA", "PqlModel.Props.C07OperatorIRTreesB", "PqlModel.Props.C07OperatorIR", "PqlModel.Props.C07OperatorIRSort", "PqlModel.Props.C07OperatorIRExtend", "PqlModel.Props.C07OperatorIRProject", "PqlModel.Props.C07OperatorIRLet", "PqlModel.Props.C07OperatorIRTabular", "PqlModel.Props.C07OperatorIRSummarize", "PqlModel.Props.C07OperatorIRRender", "PqlModel.Props.C07OperatorIRJoin", "PqlModel.Props.C07OperatorIRParse", "PqlModel.Props.C07ExprIR", "PqlModel.Props.C07ParserIR"],
+        "facts": ["precedence", "keywords", "joinTypes", "operatorKeywords", "sortTermInit", "sortTermFirst", "sortTermNullsKeyword", "sortTermNulls", "rowCountCheck", "joinInit", "joinKindKeyword", "joinKindSets", "joinUnknownFlavorContinues", "parseIR", "exprParseIR", "exprParseParams", "exprParseResults"],
         "rule": "PARSEV: programs generated from the grammar (every operator, every expression form incl. the `in` rule, "
                 "nested joins, lets, render; random layout, comments, keyword synonyms, redundant and required parentheses); "
                 "PARSE: hand-written corpus, token- and byte-level corruptions, token soups, pathological nesting. "
@@ -44,8 +44,8 @@ PROPS = {
         "case_sets": ["parse"],
         "ops": ["PARSE", "PARSEV"],
         "oracle_clauses": [r"c08-.*", r"unreadable-.*"],
-        "lean_targets": ["PqlModel.Props.C08", "PqlModel.Props.C08Full", "PqlModel.Props.C08Reject", "PqlModel.Props.C08RejectCx", "PqlModel.Props.C07OperatorIRTreesA", "PqlModel.Props.C07OperatorIRTreesB", "PqlModel.Props.C07OperatorIR", "PqlModel.Props.C07OperatorIRSort", "PqlModel.Props.C07OperatorIRExtend", "PqlModel.Props.C07OperatorIRProject", "PqlModel.Props.C07OperatorIRLet", "PqlModel.Props.C07OperatorIRTabular", "PqlModel.Props.C07OperatorIRSummarize", "PqlModel.Props.C07OperatorIRRender", "PqlModel.Props.C07OperatorIRJoin", "PqlModel.Props.C07OperatorIRParse"],
-        "facts": ["parseIR"],
+        "lean_targets": ["PqlModel.Props.C08", "PqlModel.Props.C08Full", "PqlModel.Props.C08Reject", "PqlModel.Props.C08RejectCx", "PqlModel.Props.C07OperatorIRTreesA", "PqlModel.Props.C07OperatorIRTreesB", "PqlModel.Props.C07OperatorIR", "PqlModel.Props.C07OperatorIRSort", "PqlModel.Props.C07OperatorIRExtend", "PqlModel.Props.C07OperatorIRProject", "PqlModel.Props.C07OperatorIRLet", "PqlModel.Props.C07OperatorIRTabular", "PqlModel.Props.C07OperatorIRSummarize", "PqlModel.Props.C07OperatorIRRender", "PqlModel.Props.C07OperatorIRJoin", "PqlModel.Props.C07OperatorIRParse", "PqlModel.Props.C07ExprIR"],
+        "facts": ["parseIR", "exprParseIR", "exprParseParams", "exprParseResults"],
         "rule": "same sources as C07; the oracle re-prints the implementation's tree and compares it with the reference "
                 "tokenizer's tokens of the source; non-trivial = distinct corrupted or generated source, accepted or rejected",
     },
@@ -82,8 +82,8 @@ PROPS = {
         "case_sets": ["compile"],
         "ops": ["COMPILE"],
         "oracle_clauses": [r"c01-.*", r"c05-lex", r"c05-parse", r"c05-brackets", r"c12-.*", r"unreadable-.*"],
-        "lean_targets": ["PqlModel.Props.C01", "PqlModel.Props.C01LexRender", "PqlModel.Props.C01Sem", "PqlModel.Props.C01Syntactic", "PqlModel.Props.C06Operand", "PqlModel.Props.C05ParseStatement", "PqlModel.Props.C01Templates", "PqlModel.Props.C02EndToEnd", "PqlModel.Props.C05Parsed", "PqlModel.Props.C02EndToEndSource", "PqlModel.Props.C05NoPlaceholder", "PqlModel.Props.C01WriteExprIR", "PqlModel.Props.C01WriteExprIRCases", "PqlModel.Props.C01WriteExprIRAll"],
-        "facts": ["binaryOps", "builtinIdentifiers", "knownFunctions", "writerArityGuard", "writeTemplates", "maybeParenBare", "precedence", "exprIR", "exprFns"],
+        "lean_targets": ["PqlModel.Props.C01", "PqlModel.Props.C01LexRender", "PqlModel.Props.C01Sem", "PqlModel.Props.C01Syntactic", "PqlModel.Props.C06Operand", "PqlModel.Props.C05ParseStatement", "PqlModel.Props.C01Templates", "PqlModel.Props.C02EndToEnd", "PqlModel.Props.C05Parsed", "PqlModel.Props.C02EndToEndSource", "PqlModel.Props.C05NoPlaceholder", "PqlModel.Props.C01WriteExprIR", "PqlModel.Props.C01WriteExprIRCases", "PqlModel.Props.C01WriteExprIRAll", "PqlModel.Props.C07ExprIR"],
+        "facts": ["binaryOps", "builtinIdentifiers", "knownFunctions", "writerArityGuard", "writeTemplates", "maybeParenBare", "precedence", "exprIR", "exprFns", "exprParseIR", "exprParseParams", "exprParseResults"],
         "rule": "COMPILE: hand-written corpus of expression shapes (parentheses, signs, index, in, every built-in as operand of "
                 "every operator class) + grammar-generated programs with expressions in every position; the oracle re-reads "
                 "the emitted SQL with the independent SQL reader and compares WHERE expressions with the intended translation; "
